@@ -11,10 +11,10 @@ def main(tier):
     chk.assumptions += ['CssDecl.NthHolds / Nth.tla trusted as the reading of CSS Syntax 3 section 6 and Selectors 4 section 13',
                         'TLC integers are 32 bit: |a|, |b| <= 40000 inside TLC']
     if tier == 'quick':
-        runs = [('MC_C02_rows', {'MaxRow': 4, 'NegLo': 3, 'Hi': 4, 'ExtraMag': '{}'}, 'rows4'),
+        runs = [('MC_C02_rows', {'MaxRow': 4, 'NegLo': 3, 'Hi': 4, 'ExtraMag': '{}'}, 'rows4', ('Emit', 'AlgoEqDecl')),
                 ('MC_C02_spell', {'NegLo': 3, 'Hi': 3, 'Row': 5}, 'spell', ('Emit', 'NthClosed', 'NthSpelling'))]
     else:
-        runs = [('MC_C02_rows', {'MaxRow': 5, 'NegLo': 6, 'Hi': 7, 'ExtraMag': '{100, 40000}'}, 'rows5'),
+        runs = [('MC_C02_rows', {'MaxRow': 5, 'NegLo': 6, 'Hi': 7, 'ExtraMag': '{100, 40000}'}, 'rows5', ('Emit', 'AlgoEqDecl')),
                 ('MC_C02_spell', {'NegLo': 9, 'Hi': 10, 'Row': 12}, 'spell', ('Emit', 'NthClosed', 'NthSpelling'))]
     for r in runs:
         module, consts, label = r[:3]
